@@ -21,5 +21,7 @@ TECH = {
  "C19": "regular-language equivalence of the URI patterns with reference languages (product construction over compiled regexp programs), dispatch enumeration, guard obligations with constants (static analysis)",
  "C14": "table agreement over go/types and SSA (constants, constructor arms, methods, struct tags), handle-initialisation pairing, loop-bound guard obligations (static analysis); value round-trip is explicitly not claimed",
  "C15": "frame read/write guard obligations (edge cut), handshake table agreement, nil-message and reserved-frame reachability, numeric-assertion sink analysis (static analysis)",
+ "C16": "ordering and pairing obligations (must-pass-through) on the client's request/reply rendezvous, reply-type table agreement, one-answer-per-path reachability (static analysis)",
+ "C17": "untrusted-any sink analysis on router-derived data, session-lock pairing and leaf-region analysis, who-may-close table, shutdown sequencing obligations (static analysis)",
  "C03": "SSA edge-cut guard obligations, switch/case-set agreement, INVOCATION provenance (static analysis)",
 }
